@@ -649,6 +649,10 @@ def worker_dev(col, item, tier, seed):
             run_one(col, which, scn, [0] * i + [alt], remaining, boundary_only=remaining > 0)
 
 
+THOROUGH_DEEP_WORKFLOWS = ('chain2', 'pair', 'fanin', 'xstage', 'observer', 'observer-2subj', 'replica', 'agg-plain', 'dowhile',
+                           'chain2-zero')
+
+
 def select_deep(scns, tier, seed):
     """Scenarios explored with all 1-deviation schedules."""
     core = [('chain2', {}), ('observer', {}), ('pair', {})]
@@ -665,8 +669,10 @@ def select_deep(scns, tier, seed):
     rotate = [('chain2', {'stage0.A': 'KS'}), ('chain2', {'stage0.A': 'KF'}), ('chain2', {'stage0.A': 'RS'}),
               ('xstage', {}), ('chain2', {'stage0.B': 'KF'}), ('chain2', {'stage0.A': 'XS'}), ('xstage', {'stage0.A': 'KS'})]
     if tier == 'thorough':
+        # every single-fault scenario of the core workflows (all workflows would take about a day of CPU)
         for s in scns:
-            if s not in sel and len(s['labels']) <= 1 and not s['dur'] and not s.get('trace') and not s.get('memo'):
+            if s not in sel and len(s['labels']) <= 1 and not s['dur'] and not s.get('trace') and not s.get('memo') \
+                    and s['wf'] in THOROUGH_DEEP_WORKFLOWS:
                 sel.append(s)
     else:
         sel.append(find(*rotate[seed % len(rotate)]))
